@@ -6,6 +6,7 @@ import ast
 from .pymodel import Program, iter_events
 from .cymodel import CyProgram, X, walk, pp
 from .kernels import boundary_table, local_buffer_decls, report_sites
+from .idioms import diagonal_clear_target, is_copy_of, minus_identity_of
 from .report import Run, AnalysisError
 
 PLOT_ROOT = "RecurrencePlot"
@@ -156,21 +157,16 @@ def _t2_defuse(run, C, f, M):
             continue
         first = defs[0]
         src = ast.unparse(first.value)
-        from_matrix = (f"{sn}.{M}" in src)
-        minus_eye = from_matrix and ("np.eye" in src or "np.identity" in src)
-        copied = from_matrix and (".copy()" in src or minus_eye or "np.array(" in src)
+        mtxt = [f"{sn}.{M}", f"{sn}._{M}"]
+        from_matrix = any(t in src for t in mtxt)
+        minus_eye = any(minus_identity_of(first.value, t) for t in mtxt)
+        copied = from_matrix and (minus_eye or any(is_copy_of(first.value, t)
+                                                   for t in mtxt))
         cleared = minus_eye
         for n in ast.walk(f.node):
-            if getattr(n, "lineno", 0) and first.lineno < n.lineno < c.lineno:
-                if isinstance(n, ast.Assign) and isinstance(n.targets[0], ast.Subscript):
-                    tg = n.targets[0]
-                    if ast.unparse(tg.value) == f"{a.id}.flat" and \
-                            isinstance(n.value, ast.Constant) and n.value.value == 0:
-                        cleared = True
-                if isinstance(n, ast.Call) and ast.unparse(n.func) == "np.fill_diagonal" \
-                        and n.args and ast.unparse(n.args[0]) == a.id and \
-                        len(n.args) > 1 and ast.unparse(n.args[1]) == "0":
-                    cleared = True
+            if getattr(n, "lineno", 0) and first.lineno < n.lineno < c.lineno and \
+                    isinstance(n, ast.stmt) and diagonal_clear_target(n) == a.id:
+                cleared = True
         ok = from_matrix and copied and cleared
         run.oblige("T2", inst, ok, sample={
             "where": f"{f.module.relpath}:{c.lineno}", "def": src,
@@ -377,7 +373,52 @@ def t5(run: Run, cy: CyProgram):
     run.floor("T5 neighbour subscripts", n, 3)
 
 
+# library calls whose argument type is constrained by the interpreter the
+# repository targets (pyproject: Python >= 3.9, CI up to 3.12): a call that
+# violates the contract raises on every execution of the kernel.
+#   callee text -> (position, predicate on the argument IR -> reason | None)
+def _seed_arg(a):
+    # random.seed accepts None, int, float, str, bytes, bytearray (TypeError
+    # for anything else since 3.11).  Only *provably* other types are reported.
+    if a.k == "call" and pp(a.a[0]).split(".")[-1] in ("now", "today", "utcnow",
+                                                       "localtime", "gmtime"):
+        return f"`{pp(a)}` is a date/time object"
+    if a.k in ("tuple", "list", "dict"):
+        return f"`{pp(a)}` is a {a.k}"
+    return None
+
+
+LIB_CONTRACTS = {"random.seed": (0, _seed_arg)}
+
+
+def t6(run: Run, cy: CyProgram):
+    n = 0
+    for mod in cy.modules.values():
+        if "timeseries" not in mod.name:
+            continue
+        for f in mod.funcs.values():
+            for x in walk(f.body):
+                if not (isinstance(x, X) and x.k == "call"):
+                    continue
+                name = pp(x.a[0])
+                if name not in LIB_CONTRACTS:
+                    continue
+                pos, pred = LIB_CONTRACTS[name]
+                n += 1
+                args = x.a[1]
+                why = pred(args[pos]) if len(args) > pos else None
+                run.oblige("T6", f"{f.name}/{name}", why is None,
+                           sample={"call": pp(x), "line": x.line})
+                if why:
+                    run.add("T6", f"{f.name}/{name}", f"{mod.relpath}:{x.line}",
+                            f"{f.name} calls `{pp(x)}`: {why}, which {name} rejects "
+                            f"with TypeError on Python >= 3.11 - the kernel fails on "
+                            f"every call")
+
+
 def check(run: Run, prog: Program, cy: CyProgram, sites=None):
+    run.rule("T6", "library calls inside the plot family's kernels respect the "
+             "argument types the supported interpreters accept (random.seed)")
     run.rule("T1", "every compiled entry point used by the recurrence-plot family is "
              "called with the dtype and rank its signature demands (applicability)")
     run.rule("T2", "plot+network classes rebuild the adjacency from a diagonal-free "
@@ -402,3 +443,4 @@ def check(run: Run, prog: Program, cy: CyProgram, sites=None):
     t3(run, prog)
     t4(run, prog)
     t5(run, cy)
+    t6(run, cy)
